@@ -13,7 +13,13 @@ run_case() {  # name prop kind arg
   local wt; wt=$(mktemp -d /tmp/sens-$name-XXXXXX); rmdir "$wt"
   git -C /repo worktree add -q --detach "$wt" HEAD || { echo "$name $prop HARNESS worktree"; return; }
   if [ "$kind" = revert ]; then
-    git -C "$wt" revert --no-commit "$arg" >/dev/null 2>&1 || { echo "$name $prop HARNESS revert-conflict"; git -C /repo worktree remove --force "$wt"; return; }
+    # a later repair may touch neighbouring lines; then the defect is re-introduced from a hand-made patch instead
+    local manual="$HERE/selftest/reverts/${name#revert-}.diff"
+    if [ -f "$manual" ]; then
+      git -C "$wt" apply "$manual" || { echo "$name $prop HARNESS manual-revert-patch"; git -C /repo worktree remove --force "$wt"; return; }
+    else
+      git -C "$wt" revert --no-commit "$arg" >/dev/null 2>&1 || { echo "$name $prop HARNESS revert-conflict"; git -C /repo worktree remove --force "$wt"; return; }
+    fi
   else
     git -C "$wt" apply "$HERE/seeded/$arg/patch.diff" || { echo "$name $prop HARNESS patch"; git -C /repo worktree remove --force "$wt"; return; }
   fi
